@@ -51,6 +51,16 @@ let () =
           | PRfail_producer -> Printf.printf "%s FAILPRODUCER\n" id
           | PRfail_invalid s -> Printf.printf "%s FAILINVALID %d\n" id (i s)
           | PRoob s -> Printf.printf "%s OOB %d\n" id (i s))
+       | ["PA"; id; wlog; mm; vl; dict; maxnb; fixed; ers; fb; nb; cap; srcsize; rep; pos; seqs] ->
+         (* round 2: the producer block at position [pos] of the frame *)
+         let cfg = { g_wlog = n wlog; g_minMatch = n mm; g_validate = b vl; g_producer = true; g_dict = n dict;
+                     g_maxNbSeq = n maxnb; g_fixed = b fixed } in
+         (match producer_block_at cfg (b ers) (b fb) (parse_seqs seqs) (n nb) (n cap) (n srcsize) (parse_rep rep) (n pos) with
+          | PRstore br -> Printf.printf "%s STORE %d/%s/%s\n" id (i br.r_lastLL) (rep_str br.r_rep) (sseqs_str br.r_seqs)
+          | PRfallback -> Printf.printf "%s FALLBACK\n" id
+          | PRfail_producer -> Printf.printf "%s FAILPRODUCER\n" id
+          | PRfail_invalid s -> Printf.printf "%s FAILINVALID %d\n" id (i s)
+          | PRoob s -> Printf.printf "%s OOB %d\n" id (i s))
        | ["PP"; id; nb; cap; srcsize; seqs] ->
          (match post_process (parse_seqs seqs) (n nb) (n cap) (n srcsize) with
           | PPok l -> Printf.printf "%s OK %s\n" id (zseqs_str l)
